@@ -343,7 +343,9 @@ func (g *pgen) genVar(define bool) {
 func (g *pgen) genFunc() {
 	r := g.r
 	n := g.id()
-	switch x := r.Intn(12); {
+	switch x := r.Intn(13); {
+	case x == 12:
+		g.genNeededParens(n)
 	case x < 4:
 		// C05 body
 		p := genProgram(r.Fork(), 2+r.Intn(3), r.Chance(1, 2), avoidSet{})
@@ -382,6 +384,46 @@ func (g *pgen) genFunc() {
 	default:
 		g.decl("init", fmt.Sprintf("func init() {\n\temit(%d)\n}", 300+n), "init")
 	}
+}
+
+// genNeededParens: a function whose text needs parentheses that are NOT unary/binary nesting: composite literals of
+// named types in if/for/switch/range headers and conversions to channel, pointer and function types.  Macro expansion
+// removes every ParenExpr (base.UnwrapTrivialAst) before the preprocessor prints the function, so the printer (C25) has
+// to write them back; the written file is parsed, compared, compiled and run like every other declaration.
+func (g *pgen) genNeededParens(n int) {
+	r := g.r
+	t, ar, f := fmt.Sprintf("PT%d", n), fmt.Sprintf("PA%d", n), fmt.Sprintf("np%d", n)
+	g.decl("type", fmt.Sprintf("type %s struct{ A, B int }", t), t)
+	g.decl("type", fmt.Sprintf("type %s [2]int", ar), ar)
+	g.decl("method", fmt.Sprintf("func (t %s) Is(k int) bool { return t.A == k }", t), t+".Is")
+	c1, c2 := r.Intn(3), r.Intn(3)
+	body := []string{fmt.Sprintf("t := %s{a, b}", t), "k := t.A - a"}
+	opt := func(feat string, lines ...string) {
+		if r.Chance(2, 3) {
+			body = append(body, lines...)
+			g.feat["parens:"+feat]++
+		}
+	}
+	opt("if-eq", fmt.Sprintf("if t == (%s{%d, %d}) {", t, c1, c2), "\tk += 1", "}")
+	opt("if-init", fmt.Sprintf("if u := (%s{B: %d}); u.B == b {", t, c2), "\tk += 2", "} else if u != (%s{}) {", "\tk += 4", "}")
+	opt("for-clauses", fmt.Sprintf("for i := (%s{%d, 3}).A; i < (%s{0, 3}).B; i += (%s{1, 1}).B {", t, c1, t, t), "\tk += 10", "}")
+	opt("for-cond", fmt.Sprintf("for t != (%s{a, b + 2}) {", t), "\tt.B++", "\tk += 100", "}")
+	opt("switch-tag", fmt.Sprintf("switch (%s{%d, b}) {", t, c1), "case t:", "\tk += 1000", fmt.Sprintf("case %s{a, a}:", t), "\tk += 2000", "}")
+	opt("range", fmt.Sprintf("for _, e := range (%s{%d, %d}) {", ar, c1+1, c2+1), "\tk += 10000 * e", "}")
+	opt("method-receiver", fmt.Sprintf("if (%s{%d, 0}).Is(a) && len(%s{1, 2}) == 2 {", t, c1, ar), "\tk += 100000", "}")
+	opt("conv-recv-chan", "rc := (<-chan int)(c)", "c <- b", "k += <-rc")
+	opt("conv-send-chan", "sc := (chan<- int)(c)", "sc <- a", "k += <-(chan int)(c)")
+	opt("conv-pointer", "p := (*int)(&k)", "*p += 1000000")
+	opt("conv-func", fmt.Sprintf("fn := (func() int)(func() int { return %d })", 5+c1), "k += fn()")
+	opt("conv-slice", "k += len(([]int)(nil)) + (k+1)*2")
+	body = append(body, "return k")
+	for i, l := range body {
+		if strings.Contains(l, "%s") {
+			body[i] = fmt.Sprintf(l, t)
+		}
+	}
+	g.decl("func", fmt.Sprintf("func %s(a, b int, c chan int) int {\n%s\n}", f, strings.Join(indent(body), "\n")), f)
+	g.prints = append(g.prints, fmt.Sprintf("fmt.Println(%q, %s(%d, %d, make(chan int, 1)), %s(1, 2, make(chan int, 1)))", f, f, c1, c2, f))
 }
 
 const emitDecl = "func emit(k int) { trace = append(trace, k) }"
